@@ -387,7 +387,34 @@ class Analysis:
             return "fixed"
         if "default=Signature.empty" in txt.replace(" ", ""):
             return "paramName"
+        # defaults replaced by objects whose repr is the name of a registered constant
+        dflts = [k.value for n in ast.walk(e) if isinstance(n, ast.Call) and self.callee_name(n) == "replace"
+                 for k in n.keywords if k.arg == "default"]
+        if dflts and all(self.default_is_name_ref(d) for d in dflts):
+            return "paramName"
         return RAW
+
+    def default_is_name_ref(self, d) -> bool:
+        if isinstance(d, ast.IfExp):
+            return self.default_is_name_ref(d.body) and self.default_is_name_ref(d.orelse)
+        if isinstance(d, ast.Attribute) and ast.unparse(d) == "Signature.empty":
+            return True
+        if isinstance(d, ast.Call) and isinstance(d.func, ast.Name) and len(d.args) == 1 and not d.keywords:
+            cls = [n for m in self.modules for n in ast.walk(m.tree) if isinstance(n, ast.ClassDef) and n.name == d.func.id]
+            if len(cls) != 1:
+                return False
+            init = next((f for f in cls[0].body if isinstance(f, ast.FunctionDef) and f.name == "__init__"), None)
+            rep = next((f for f in cls[0].body if isinstance(f, ast.FunctionDef) and f.name == "__repr__"), None)
+            if init is None or rep is None or len(init.args.args) != 2:
+                return False
+            arg = init.args.args[1].arg
+            stores = [n for n in ast.walk(init) if isinstance(n, ast.Assign) and isinstance(n.value, ast.Name) and n.value.id == arg
+                      and isinstance(n.targets[0], ast.Attribute)]
+            rets = [n for n in ast.walk(rep) if isinstance(n, ast.Return)]
+            if len(stores) != 1 or len(rets) != 1 or ast.unparse(rets[0].value) != ast.unparse(stores[0].targets[0]):
+                return False
+            return self.classify(d.args[0]) in SAFE   # the name itself comes from the mangling registry
+        return False
 
     def classify_signature_ctor(self, e: ast.Call) -> str:
         """`Signature(parameters=[Parameter("data", ...), ...])` with constant names and no defaults"""
